@@ -4,10 +4,92 @@
 
 package note
 
-//@ # summary used by the client (C01, C13): a note that opens was signed over exactly the returned text
-//@ # (the body of Open is the subject of C07)
-//@ func Open
+//@ # ---------- what callers supply (assumed): verifiers are deterministic functions of their inputs ----------
+//@ spec func VERIFIES(v Verifier, msg string, sig string) bool
+//@ spec func KV(known Verifiers, name string, hash uint32) Verifier
+//@ spec func KE(known Verifiers, name string, hash uint32) error
+//@ iface Verifier.Name(v Verifier) string
+//@   pure
+//@ iface Verifier.KeyHash(v Verifier) uint32
+//@   pure
+//@ iface Verifier.Verify(v Verifier, msg []byte, sig []byte) bool
 //@   allocates
-//@   trusted "C07: Open returns only notes with a verified signature by a known key over n.Text; here: SIGNEDTEXT"
-//@   ensures result1 == nil ==> result0 != nil && SIGNEDTEXT(string(msg), result0.Text)
-//@   props C01 C13
+//@   ensures result == VERIFIES(v, string(msg), string(sig))
+//@ iface Verifiers.Verifier(known Verifiers, name string, hash uint32) (v Verifier, err error)
+//@   allocates
+//@   ensures v == KV(known, name, hash) && err == KE(known, name, hash) && (err == nil ==> v != nil)
+
+//@ func chop
+//@   pure
+//@   ensures strings.Index(s, sep) < 0 ==> before == s && after == ""
+//@   ensures strings.Index(s, sep) >= 0 ==> before == s[:strings.Index(s, sep)] && after == s[strings.Index(s, sep)+len(sep):]
+//@   props C07
+//@ func isValidName
+//@   pure
+//@   trusted "non-empty, valid UTF-8, no Unicode space, no '+' (strings.IndexFunc with unicode.IsSpace): an uninterpreted predicate of the name here"
+//@   props C07
+//@ func VerifierList
+//@   allocates
+//@   trusted "builds the map from (name, hash) to verifiers; used by Open only for a nil argument (empty list)"
+//@   ensures result != nil
+//@   props C07
+
+//@ # a signature line s of the note is verified: its key is known and the key's verifier accepted the decoded
+//@ # signature bytes over exactly the text
+//@ spec func SIGOK(known Verifiers, s Signature, text string) bool =
+//@     B64DOK(s.Base64) && len(B64D(s.Base64)) >= 5 && s.Hash == BE32(B64D(s.Base64)[:4])
+//@     && KE(known, s.Name, s.Hash) == nil
+//@     && KV(known, s.Name, s.Hash).Name() == s.Name && KV(known, s.Name, s.Hash).KeyHash() == s.Hash
+//@     && VERIFIES(KV(known, s.Name, s.Hash), text, B64D(s.Base64)[4:])
+//@ # text is the part of msg up to and including the newline that precedes the last blank line
+//@ spec func ISTEXTOF(text string, msg string) bool =
+//@     len(text) >= 1 && len(text) + 1 <= len(msg) && text == msg[:len(text)] && msg[len(text)-1] == '\n' && msg[len(text)] == '\n'
+
+//@ # what the checksum-database client relies on (C01, C13): x is the text part of m and some signature line on it
+//@ # was verified by a verifier that `known` has for that line's key
+//@ spec func SIGNEDTEXT(known Verifiers, m string, x string) bool = ISTEXTOF(x, m) && (exists s Signature :: SIGOK(known, s, x))
+
+//@ func Open
+//@   let KNOWN Verifiers = known @before loop 1
+//@   ensures [C07] verified_over_text: result1 == nil ==> result0 != nil && len(result0.Sigs) >= 1 && ISTEXTOF(result0.Text, string(msg))
+//@   ensures [C07] every_listed_signature_checked: result1 == nil ==> (forall k int :: 0 <= k && k < len(result0.Sigs) ==> SIGOK(KNOWN, result0.Sigs[k], result0.Text))
+//@   ensures [C07, C01, C13] signed_text: result1 == nil ==> (known != nil ==> SIGNEDTEXT(known, string(msg), result0.Text))
+//@   # a signature is listed as unverified only when its key is unknown (any other lookup error makes Open fail)
+//@   ensures [C07] unverified_means_unknown: result1 == nil ==> (forall k int :: 0 <= k && k < len(result0.UnverifiedSigs) ==> typeof(KE(KNOWN, result0.UnverifiedSigs[k].Name, result0.UnverifiedSigs[k].Hash)) == typeid("*UnknownVerifierError"))
+//@   loop 0:
+//@     invariant 0 <= i && i <= len(msg) && known != nil
+//@     decreases len(msg) - i
+//@   loop 1:
+//@     invariant n != nil && known != nil && known == KNOWN && seen != nil && seenUnverified != nil && 0 <= numSig && numSig <= 100
+//@     invariant fresh(n) && fresharr(n.Sigs) && fresharr(n.UnverifiedSigs) && oldarrays_kept(n.Sigs)
+//@     invariant cap(n.Sigs) == 0 || cap(n.UnverifiedSigs) == 0 || !samearr(n.Sigs, n.UnverifiedSigs)
+//@     invariant len(sigs) > 0 ==> sigs[len(sigs)-1] == '\n'
+//@     invariant n.Text == string(text) && ISTEXTOF(n.Text, string(msg))
+//@     invariant forall k int {n.Sigs[k]} :: 0 <= k && k < len(n.Sigs) ==> SIGOK(known, n.Sigs[k], n.Text)
+//@     invariant forall k int {n.UnverifiedSigs[k]} :: 0 <= k && k < len(n.UnverifiedSigs) ==> typeof(KE(known, n.UnverifiedSigs[k].Name, n.UnverifiedSigs[k].Hash)) == typeid("*UnknownVerifierError")
+//@     decreases len(sigs)
+//@   props C07 C01 C13
+
+//@ # ---------- Sign: every new signature is made over exactly the note text, and the message starts with it ----------
+//@ iface Signer.Name(s Signer) string
+//@   pure
+//@ iface Signer.KeyHash(s Signer) uint32
+//@   pure
+//@ iface Signer.Sign(s Signer, msg []byte) (sig []byte, err error)
+//@   allocates
+//@ func Sign
+//@   requires n != nil && (forall k int :: 0 <= k && k < len(signers) ==> signers[k] != nil)
+//@   modifies ghost.WRITTEN, []byte
+//@   call Signer.Sign requires [C07] signs_exact_text: string(arg_msg) == n.Text
+//@   ensures [C07] text_then_blank_line: result1 == nil ==> strings.HasSuffix(n.Text, "\n") && strings.HasPrefix(string(result0), n.Text + "\n")
+//@   loop 0:
+//@     invariant 0 - 1 <= @idx && @idx < len(signers) && have != nil && WRITTEN[&buf] == n.Text
+//@     decreases len(signers) - @idx
+//@   loop 1:
+//@     invariant 0 - 1 <= @idx && @idx < 2 && have != nil
+//@     invariant len(WRITTEN[&buf]) >= len(n.Text) + 1 && WRITTEN[&buf][:len(n.Text)+1] == n.Text + "\n"
+//@   loop 2:
+//@     invariant 0 - 1 <= @idx && @idx < len(list) && have != nil
+//@     invariant len(WRITTEN[&buf]) >= len(n.Text) + 1 && WRITTEN[&buf][:len(n.Text)+1] == n.Text + "\n"
+//@   uses cat_prefix prefix_ext
+//@   props C07
